@@ -36,6 +36,13 @@ func (r *ACLResolver) VerifC09WaitIdentityFetch(secret string) {
 	_, _, _ = r.identityGroup.Do(secret, func() (interface{}, error) { return nil, nil })
 }
 
+// VerifC09ResolveRoles runs resolveTokenToIdentityAndRoles (the second copy of the retry loop with
+// the expiry test, used by ACL.RoleResolve) and returns the identity it accepts.
+func (r *ACLResolver) VerifC09ResolveRoles(secret string) (structs.ACLIdentity, error) {
+	id, _, err := r.resolveTokenToIdentityAndRoles(secret)
+	return id, err
+}
+
 // VerifC09ForgetPolicy removes a policy from the resolver's policy cache.
 func (r *ACLResolver) VerifC09ForgetPolicy(id string) {
 	r.cache.RemovePolicy(id)
